@@ -53,7 +53,17 @@ case "${1:-}" in
     if [ "$ID" = "C01" ]; then build_o0 || exit 2; fi
     if [ "$ID" = "C17" ]; then build_nopuf; fi
     "$TARGET/release/check" "$ID" --tier "$TIER"
-    exit $?
+    CODE=$?
+    # thorough tier: coverage-guided campaign with the property's oracle in the target
+    if [ $CODE -eq 0 ] && [ "$TIER" = thorough ] && [ -z "${NFV_REPO:-}" ]; then
+      case "$ID" in
+        C01|C02|C09|C10|C12|C16)
+          /verif/tools/fuzz_phase.sh "$ID" "${NFV_FUZZ_RUNS:-400000}" 16
+          CODE=$?
+          ;;
+      esac
+    fi
+    exit $CODE
     ;;
   replay)
     ID="$2"; FILE="$3"
